@@ -84,6 +84,13 @@ class CallMixin:
                     # pass-through of *args to a callable value: the arguments are not tracked
                     yield from go(i + 1, st, acc)
                     return
+                if isinstance(fn, (FuncRef, MethodRef)):
+                    for st1, v in self.ev(a.value, st):
+                        v = self.as_value(v)
+                        if not isinstance(v.t, TSeq):
+                            raise EngineError(f"*args of a non-sequence at call site: {v.t}")
+                        yield from go(i + 1, st1, acc + [("$star", v)])
+                    return
                 raise EngineError("*args at call site")
             for st1, v in self.ev(a, st):
                 yield from go(i + 1, st1, acc + [v])
@@ -405,6 +412,13 @@ class CallMixin:
         a = self.as_value(args[0])
         if isinstance(a.t, (TInt, TBool)):
             yield st, coerce(a, INT)
+        elif isinstance(a.t, TStr):
+            # int(s): S2I(s) for plain decimal digit tokens (DIG); anything else has an unknown outcome (A-STRNUM)
+            dig = self.DIG(a.z)
+            st = st.assume(z3.Implies(dig, self.S2I(a.z) >= 0))
+            if not self.spec:
+                self.raise_(st, "ValueError", z3.And(z3.Not(dig), z3.Bool(fresh_name("int_rejects"))))
+            yield st, mk_int(z3.If(dig, self.S2I(a.z), z3.Function("int_of_str", z3.StringSort(), z3.IntSort())(a.z)))
         elif isinstance(a.t, TFloat):
             self.raise_(st, "ValueError", vals.f_isnan(a))
             self.raise_(st, "OverflowError", vals.f_isinf(a))
@@ -422,6 +436,13 @@ class CallMixin:
             yield st, coerce(a, FLOAT)
         elif isinstance(a.t, TFP):
             yield st, a
+        elif isinstance(a.t, TStr) and self.fp_mode:
+            # float(s): an uninterpreted function of the text, defined on the texts VALIDF accepts; ValueError otherwise
+            st = st.assume(self.strnum_facts())
+            if not self.spec:
+                self.raise_(st, "ValueError", z3.Not(self.VALIDF(a.z)))
+                st = st.assume(self.VALIDF(a.z))
+            yield st, vals.mk_fp(self.S2F(a.z))
         else:
             if isinstance(a.t, TOpaque):
                 self.opq_may_raise(st, "float() of a value of unknown type")
@@ -440,11 +461,113 @@ class CallMixin:
         a = args[0] if args else None
         if isinstance(a, V) and isinstance(a.t, TStr):
             yield st, a
+        elif isinstance(a, V) and isinstance(a.t, TInt):
+            # str(int): a decimal digit token d with int(d) == |n|, '-' in front of negative numbers (A-STRNUM)
+            d = fresh(STR, "digits")
+            n = a.z
+            st = st.assume(z3.And(self.DIG(d.z), self.S2I(d.z) == z3.If(n >= 0, n, -n), z3.Length(d.z) >= 1,
+                                  z3.Not(z3.PrefixOf(z3.StringVal("-"), d.z))))
+            yield st, mk_str(z3.If(n >= 0, d.z, z3.Concat(z3.StringVal("-"), d.z)))
         else:
             yield st, fresh(STR, "str")
 
+    # ---- text <-> number conversions that the solver cannot compute: uninterpreted, constrained where they are used (A-STRNUM)
+    @property
+    def DIG(self):
+        return z3.Function("DIG", z3.StringSort(), z3.BoolSort())           # text is a plain decimal integer token
+
+    @property
+    def S2I(self):
+        return z3.Function("S2I", z3.StringSort(), z3.IntSort())            # int(text) for such tokens
+
+    @property
+    def S2F(self):
+        return z3.Function("S2F", z3.StringSort(), vals.FP64)              # float(text)
+
+    @property
+    def VALIDF(self):
+        return z3.Function("VALIDF", z3.StringSort(), z3.BoolSort())        # text is accepted by float()
+
+    @property
+    def UNQ(self):
+        return z3.Function("UNQ", z3.StringSort(), z3.StringSort())         # value of a string-literal token
+
+    @property
+    def ISQ(self):
+        return z3.Function("ISQ", z3.StringSort(), z3.BoolSort())           # text is a valid string-literal token
+
+    def strnum_facts(self):
+        S = z3.StringVal
+        return z3.And(self.VALIDF(S("inf")), self.VALIDF(S("nan")), self.VALIDF(S("-inf")),
+                      self.S2F(S("inf")) == z3.fpPlusInfinity(vals.FP64), self.S2F(S("-inf")) == z3.fpMinusInfinity(vals.FP64),
+                      z3.fpIsNaN(self.S2F(S("nan"))))
+
     def bi_repr(self, st, args, kw, node):
+        a = self.as_value(args[0]) if args and isinstance(args[0], V) else None
+        if a is not None and isinstance(a.t, TFP):
+            # repr(float): the shortest text that float() maps back to the same double (CPython guarantee, assumed);
+            # finite values print with a '.' or an exponent, a leading '-' exactly for negative-signed values
+            r = fresh(STR, "reprf")
+            x = a.z
+            fin = z3.Not(z3.Or(z3.fpIsInf(x), z3.fpIsNaN(x)))
+            S = z3.StringVal
+            facts = z3.And(
+                self.strnum_facts(), self.VALIDF(r.z),
+                z3.Implies(fin, z3.And(self.S2F(r.z) == x, z3.Or(z3.Contains(r.z, S(".")), z3.Contains(r.z, S("e"))),
+                                       z3.PrefixOf(S("-"), r.z) == z3.fpIsNegative(x), z3.Length(r.z) >= 3)),
+                z3.Implies(z3.And(z3.fpIsInf(x), z3.fpIsPositive(x)), r.z == S("inf")),
+                z3.Implies(z3.And(z3.fpIsInf(x), z3.fpIsNegative(x)), r.z == S("-inf")),
+                z3.Implies(z3.fpIsNaN(x), r.z == S("nan")))
+            self.note_assumed("repr(float) round-trips through float() and prints finite values with '.' or 'e' (CPython, assumed)")
+            yield st.assume(facts), r
+            return
+        if a is not None and isinstance(a.t, TStr):
+            # repr(str): a valid string-literal token whose value is the string (CPython, assumed)
+            r = fresh(STR, "reprs")
+            self.note_assumed("repr(str) is a string-literal token that evaluates to the string (CPython, assumed)")
+            yield st.assume(z3.And(self.ISQ(r.z), self.UNQ(r.z) == a.z)), r
+            return
         yield st, fresh(STR, "repr")
+
+    def bi_cast(self, st, args, kw, node):
+        """cast(x, Class) in a spec: x viewed as an instance of a declared subclass (meaningful under an isinstance guard)."""
+        a = self.as_value(args[0])
+        if isinstance(a.t, TOpt):
+            a = opt_val(a)
+        cname = args[1].name if isinstance(args[1], ClassRef) else None
+        if cname not in self.ct.classes or not isinstance(a.t, TRef):
+            raise EngineError("cast(x, Class) needs an object and a declared class")
+        yield st, V(TRef(cname), a.zs)
+
+    def bi_isdigits(self, st, args, kw, node):
+        yield st, mk_bool(self.DIG(self.as_value(args[0]).z))
+
+    def bi_isneg(self, st, args, kw, node):
+        yield st, mk_bool(z3.fpIsNegative(self.as_value(args[0]).z))
+
+    def bi_samefp(self, st, args, kw, node):
+        a, b = self.as_value(args[0]), self.as_value(args[1])
+        a = opt_val(a) if isinstance(a.t, TOpt) else a
+        b = opt_val(b) if isinstance(b.t, TOpt) else b
+        yield st, mk_bool(a.z == b.z)          # SMT equality of doubles: same sign, same value, NaN equals NaN
+
+    def bi_validf(self, st, args, kw, node):
+        yield st.assume(self.strnum_facts()), mk_bool(self.VALIDF(self.as_value(args[0]).z))
+
+    def bi_unq(self, st, args, kw, node):
+        yield st, mk_str(self.UNQ(self.as_value(args[0]).z))
+
+    def bi_isquoted(self, st, args, kw, node):
+        yield st, mk_bool(self.ISQ(self.as_value(args[0]).z))
+
+    def bi_math_copysign(self, st, args, kw, node):
+        a, b = self.as_value(args[0]), self.as_value(args[1])
+        if not (isinstance(a.t, TFP) and isinstance(b.t, TFP)):
+            raise EngineError("copysign outside fp mode")
+        mag = z3.fpAbs(a.z)
+        yield st, vals.mk_fp(z3.If(z3.fpIsNegative(b.z), z3.fpNeg(mag), mag))
+
+    bi_copysign = bi_math_copysign
 
     def bi_print(self, st, args, kw, node):
         yield st, NONEV
